@@ -1,4 +1,4 @@
 From Coq Require Import ExtrOcamlBasic NArith ZArith List.
-From LV Require Import lib.Conv model.Fetcher spec.FetcherSpec model.FetcherSim.
+From LV Require Import lib.Conv model.Fetcher spec.FetcherSpec model.FetcherSim model.Workers.
 Extraction "model.ml" conv_roots step init pass_margin keys_now fetching_ids announcers timer_due timer_chan
-  spec_check simulate_fetcher.
+  spec_check simulate_fetcher wk_check.
